@@ -180,11 +180,11 @@ def pathAddCore (p : Path) (add : Nat) : Res Path :=
           let base := Mem.write base (len + add) [p.assign]
           .ok { p with base := base, first := first, len := len + add + 1 - p.off, keepPost := false }
 
-/-- `mpt_path_add(path, add)`: without storage (`base == NULL`) refused; a path that still refers to a plain string
+/-- `mpt_path_add(path, add)`: without storage (`base == NULL`) only an empty element can be added; a path that still refers to a plain string
     gets a buffer with a copy of its data and the `add` bytes behind it -/
 def pathAdd (p : Path) (add : Nat) : Res Path :=
   if !p.hasArray then
-    if p.base.isEmpty then .err .MissingBuffer
+    if p.base.isEmpty ∧ (add ≠ 0 ∨ p.off ≠ 0 ∨ p.len ≠ 0) then .err .MissingBuffer
     else if p.base.length < p.off + p.len + add then .oob
     else pathAddCore { p with base := p.base.take (p.off + p.len + add), hasArray := true } add
   else pathAddCore p add
@@ -346,6 +346,69 @@ def nodeAssignE (l : List CNode) (k : List (List Byte)) (v : AVal) : List CNode 
       | some l' => (l', true)
       | none => (l, false)
 
+/-! ### the tree functions on a path cursor (node_query.c / node_assign.c as written: `mpt_path_next` interleaved with
+    the walk; a failed step leaves the cursor where it was before that step) -/
+
+/-- the bytes of the element a `pathNext` step from `p` to `q` consumed (`n` = its length) -/
+def stepElem (p q : Path) (n : Nat) : List Byte :=
+  (p.base.drop (q.off - n - (if p.binary then 2 else 1))).take n
+
+/-- `mpt_node_query(list, &path)`: the deepest existing node along the path, and the cursor behind the consumed
+    elements (cursor restored to the state before an element that is not there) -/
+def nodeFindP (l : List CNode) (p : Path) : Nat → Res (Option CNode × Path)
+  | 0 => .fault
+  | f + 1 =>
+    if p.len = 0 then .ok (none, p)
+    else match pathNext p with
+      | .ok (q, n) =>
+        match locate l (stepElem p q n) with
+        | none => .ok (none, p)
+        | some i =>
+          match l[i]? with
+          | none => .ok (none, p)
+          | some c =>
+            if c.kids.isEmpty then .ok (some c, q)
+            else match nodeFindP c.kids q f with
+              | .ok (some d, q') => .ok (some d, q')
+              | .ok (none, q') => .ok (some c, q')
+              | e => e
+      | .err e => .err e
+      | .null => .null | .oob => .oob | .fault => .fault
+
+/-- value read through `mpt_node_query`: the whole path must be consumed -/
+def nodeGetP (l : List CNode) (p : Path) (fuel : Nat) : Res (Option (List Byte)) :=
+  match nodeFindP l p fuel with
+  | .ok (some c, q) => .ok (if q.len = 0 then c.value else none)
+  | .ok (none, _) => .ok none
+  | .err e => .err e
+  | .null => .null | .oob => .oob | .fault => .fault
+
+/-- `mpt_node_assign(&list, &path, value)` on the cursor: existing elements are followed, from the first missing
+    element on the remaining elements are created as a chain -/
+def nodeAssignP (l : List CNode) (p : Path) (v : List Byte) : Nat → Res (Option (List CNode))
+  | 0 => .fault
+  | f + 1 =>
+    if p.len = 0 then .ok none
+    else match pathNext p with
+      | .ok (q, n) =>
+        let e := stepElem p q n
+        match locate l e with
+        | none =>
+          match elems q f with
+          | .ok es => .ok (some (l ++ chain (e :: es) (some v)))
+          | .err x => .err x
+          | .null => .null | .oob => .oob | .fault => .fault
+        | some i =>
+          match l[i]? with
+          | none => .ok none
+          | some c =>
+            if q.len = 0 then .ok (some (l.set i (.mk c.name (some v) c.kids)))
+            else match nodeAssignP c.kids q v f with
+              | .ok (some ks') => .ok (some (l.set i (.mk c.name c.value ks')))
+              | x => x
+      | .err e => .err e
+      | .null => .null | .oob => .oob | .fault => .fault
+
 /-- exact lookup used by query/remove of config_global.c: `mpt_node_query` must consume the whole path -/
 def findExact : List CNode → List (List Byte) → Option CNode
   | _, [] => none
@@ -386,6 +449,22 @@ def clearExact : List CNode → List (List Byte) → Option (List CNode)
         if es.isEmpty then some (l.set i (.mk c.name c.value []))
         else
           match clearExact c.kids es with
+          | some ks' => some (l.set i (.mk c.name c.value ks'))
+          | none => none
+
+/-- the value of the node at exactly this path is dropped (view remove with a NULL path) -/
+def unsetExact : List CNode → List (List Byte) → Option (List CNode)
+  | _, [] => none
+  | l, e :: es =>
+    match locate l e with
+    | none => none
+    | some i =>
+      match l[i]? with
+      | none => none
+      | some c =>
+        if es.isEmpty then some (l.set i (.mk c.name none c.kids))
+        else
+          match unsetExact c.kids es with
           | some ks' => some (l.set i (.mk c.name c.value ks'))
           | none => none
 
@@ -466,6 +545,18 @@ def configRemove (l : List CNode) (b p : List (List Byte)) : Res (List CNode × 
     if b ≠ [] ∧ (findExact l b).isNone then .ok (l, 0)
     else match removeExact l (b ++ p) with
       | some l' => .ok (l', 1)
+      | none => .ok (l, 0)
+
+/-- `configRemove` with the path argument as the code sees it: `none` = NULL pointer (a view drops the value of its
+    base; the global object refuses), `some []` = empty path, `some k` = elements -/
+def configRemoveP (l : List CNode) (b : List (List Byte)) (p : Option (List (List Byte))) : Res (List CNode × Int) :=
+  match p with
+  | some k => configRemove l b k
+  | none =>
+    if l.isEmpty then .err .BadOperation
+    else if b = [] then .err .BadOperation
+    else match unsetExact l b with
+      | some l' => .ok (l', 0)
       | none => .ok (l, 0)
 
 /-- all (path, value) pairs of the tree -/
